@@ -192,7 +192,10 @@ def run_shard(sink, tier, seed, shard):
     nc = harness.scale(6000, 100000, tier)
     i0, step = (shard or {}).get('i', 0), (shard or {}).get('n', 1)
     for idx in range(i0, n, step):
-        sink.guard('harness', 'pair', dict(index=idx), lambda: check_pair(sink, seed, idx))
+        with harness.reentrant(idx % 8 == 0):  # an eighth of the cases with callbacks that call back into optree
+            sink.guard('harness', 'pair', dict(index=idx), lambda: check_pair(sink, seed, idx))
+        if idx % 8 == 0:
+            sink.count('cases-with-re-entrant-callbacks')
     for idx in range(i0, nc, step):
         sink.guard('harness', 'chain', dict(index=idx), lambda: chain_case(sink, seed, idx))
 
